@@ -297,9 +297,15 @@ ALPHA_E = 'a1\\"();$@. -{}'
 
 def h04e(tok: str) -> bool:
     """Zone text with one free token: SyntaxError family (zones: with file:line) or the documented ValueError/KeyError only."""
-    text = "@ 300 IN SOA ns hostmaster 1 2 3 4 5\n@ 300 IN NS ns\n" + (ZONE_TEMPLATES[S("template")] % tok)
+    if S("noorigin"):
+        # no origin argument: the origin comes from a $ORIGIN directive, the free line comes before any owner was seen
+        text = "$ORIGIN example.\n" + (ZONE_TEMPLATES[S("template")] % tok) + "@ 300 IN SOA ns hostmaster 1 2 3 4 5\n@ 300 IN NS ns\n"
+        origin = None
+    else:
+        text = "@ 300 IN SOA ns hostmaster 1 2 3 4 5\n@ 300 IN NS ns\n" + (ZONE_TEMPLATES[S("template")] % tok)
+        origin = "example."
     try:
-        z = dns.zone.from_text(text, origin="example.", relativize=True)
+        z = dns.zone.from_text(text, origin=origin, relativize=True)
     except dns.exception.SyntaxError as e:
         hit("syntax")
         return ":" in str(e)  # file:line prefix added by the zone reader
@@ -316,7 +322,10 @@ def h04e_pre(tok):
 
 def h04e_shards(tier):
     top = 2 if tier == "quick" else 3
-    return [{"template": i, "len": n, "_timeout": 900, "_path_timeout": 60} for i in range(len(ZONE_TEMPLATES)) for n in range(0, top + 1)]
+    out = [{"template": i, "len": n, "_timeout": 900, "_path_timeout": 60} for i in range(len(ZONE_TEMPLATES)) for n in range(0, top + 1)]
+    # the same free owner / free line / $TTL / $ORIGIN templates in a file that gets its origin from $ORIGIN only
+    out += [{"template": i, "len": n, "noorigin": True, "_timeout": 900, "_path_timeout": 60} for i in (0, 4, 5, 9) for n in range(0, top + 1)]
+    return out
 
 
 HARNESSES = [
@@ -346,6 +355,6 @@ HARNESSES = [
     Harness("H04e", h04e, h04e_pre, h04e_shards, kind="universal",
             encodes=["dns.zonefile.Reader.read", "dns.zonefile.Reader._rr_line", "dns.zonefile.Reader._generate_line", "dns.zonefile.Reader._parse_modify",
                      "dns.zone.from_text"],
-            bound="10 zone-file templates (owner, TTL, class, type, $TTL, $ORIGIN, $GENERATE range and rhs, TXT data, a whole free line) with one free token of <= 2 (3) characters over a 1 \\ \" ( ) ; $ @ . space - { }",
+            bound="10 zone-file templates (owner, TTL, class, type, $TTL, $ORIGIN, $GENERATE range and rhs, TXT data, a whole free line; 4 of them also as the first lines of a file parsed without an origin argument, after a $ORIGIN directive) with one free token of <= 2 (3) characters over a 1 \\ \" ( ) ; $ @ . space - { }",
             stubs=["E2", "E3", "E4"], outside="$INCLUDE; longer tokens"),
 ]
